@@ -2,7 +2,7 @@
     log2_bounds encloses; remove() strips the full power.
     ONLY statements pinned here; proofs live in Dashu.Int.Grl*. *)
 From Dashu Require Import Base.Prelude Int.GrlSpec Int.GrlModel Int.GrlSpecProof Int.GrlRootProof
-  Int.GrlLogProof Int.GrlRemoveProof Int.GrlSqrtProof Int.GrlGcdProof Int.GrlLog2Tab Int.GrlLog2TabProof.
+  Int.GrlLogProof Int.GrlRemoveProof Int.GrlSqrtProof Int.GrlGcdProof Int.GrlLog2Tab Int.GrlLog2TabProof Int.GrlLog2Real.
 From Coq Require Import Znumtheory.
 Open Scope Z_scope.
 
@@ -285,3 +285,15 @@ Print Assumptions C12_nostd_log2_u16_encloses.
 Theorem C12_nostd_gap_small : forall n, 256 <= n <= 65535 -> pow2b n = false -> 0 <= nostd_gap n <= 4.
 Proof. exact nostd_gap_small. Qed.
 Print Assumptions C12_nostd_gap_small.
+
+(** * what the integer enclosure statements mean over the reals (log2R x = ln x / ln 2) *)
+From Coq Require Import Reals.
+Theorem C12_log2_lb_holds_real : forall m k p q, (0 < p)%Z -> (0 < q)%Z ->
+  log2_lb_holds m k p q <-> (IZR m / 2 ^ k <= log2R (IZR p / IZR q))%R.
+Proof. exact log2_lb_holds_real. Qed.
+Print Assumptions C12_log2_lb_holds_real.
+
+Theorem C12_log2_ub_holds_real : forall m k p q, (0 < p)%Z -> (0 < q)%Z ->
+  log2_ub_holds m k p q <-> (log2R (IZR p / IZR q) <= IZR m / 2 ^ k)%R.
+Proof. exact log2_ub_holds_real. Qed.
+Print Assumptions C12_log2_ub_holds_real.
